@@ -85,8 +85,36 @@ pub fn calibrate() {
     }
 }
 
+/// a helper whose machine code lives below 2 GiB, as the functions of a non-PIE executable do (`lea rax, [rdi + 1]; ret`: the value
+/// of h_clobber, without the clobbering): a compiler that chooses an encoding by the distance to the target sees a near target
+/// from some buffers and a far one from others
+#[cfg(target_arch = "x86_64")]
+pub fn low_helper() -> rbpf::ebpf::Helper {
+    static mut LOW: usize = 0;
+    unsafe {
+        if LOW == 0 {
+            for base in [0x1000_0000usize, 0x2000_0000, 0x3000_0000, 0x0800_0000] {
+                let p = libc::mmap(base as *mut libc::c_void, 4096, libc::PROT_READ | libc::PROT_WRITE | libc::PROT_EXEC,
+                                   libc::MAP_PRIVATE | libc::MAP_ANONYMOUS | libc::MAP_FIXED_NOREPLACE, -1, 0);
+                if p as usize == base {
+                    let code: [u8; 5] = [0x48, 0x8d, 0x47, 0x01, 0xc3];
+                    std::ptr::copy_nonoverlapping(code.as_ptr(), p as *mut u8, code.len());
+                    LOW = base;
+                    break;
+                }
+            }
+            if LOW == 0 {
+                panic!("no low address available");
+            }
+        }
+        std::mem::transmute::<usize, rbpf::ebpf::Helper>(LOW)
+    }
+}
+
 pub fn helper_by_name(n: &str) -> Option<rbpf::ebpf::Helper> {
     Some(match n {
+        #[cfg(target_arch = "x86_64")]
+        "low" => low_helper(),
         "mix" => h_mix,
         "rec" => h_rec,
         "clobber" => h_clobber,
